@@ -2,6 +2,7 @@
   C10 — Positional arguments bind in declaration order.
 -/
 import GoFlags.Lemmas.ParseBasics
+import GoFlags.Lemmas.Tables
 
 namespace GoFlags.C10
 open GoFlags Bytes
@@ -88,4 +89,120 @@ theorem after_terminator_everything_is_positional (E : Env) (help : HelpFn) (fue
 theorem queue_is_declaration_order (s : PS) (ci : Nat) :
     (s.fill ci).positional = (List.range (s.P.cmd ci).args.length).map fun i => (ci, i) := rfl
 
+/-! ### Whole lists of words -/
+
+theorem argAt_modArg_same (P : Parser) (a : Nat × Nat) (f : ArgD → ArgD)
+    (h1 : a.1 < P.cmds.length) (h2 : a.2 < (P.cmd a.1).args.length) :
+    (P.modArg a f).argAt a = f (P.argAt a) := by
+  unfold Parser.modArg Parser.argAt
+  rw [Parser.cmd_modCmd_same P a.1 _ h1]
+  simp only
+  exact listModify_getD_same _ _ _ _ h2
+
+theorem argAt_modArg_ne (P : Parser) (a b : Nat × Nat) (f : ArgD → ArgD) (h : a ≠ b) :
+    (P.modArg a f).argAt b = P.argAt b := by
+  unfold Parser.modArg Parser.argAt
+  by_cases hc : a.1 = b.1
+  · by_cases hl : a.1 < P.cmds.length
+    · rw [← hc, Parser.cmd_modCmd_same P a.1 _ hl]
+      simp only
+      apply listModify_getD_ne
+      intro h2; apply h; exact Prod.ext hc h2
+    · rw [Parser.modCmd_of_le P a.1 _ (by omega)]
+  · rw [Parser.cmd_modCmd_ne P a.1 b.1 _ hc]
+
+/-- a pending positional field that exists -/
+def ArgValid (P : Parser) (a : Nat × Nat) : Prop := a.1 < P.cmds.length ∧ a.2 < (P.cmd a.1).args.length
+
+theorem ArgValid_modArg (P : Parser) (a b : Nat × Nat) (f : ArgD → ArgD) (h : ArgValid P b) : ArgValid (P.modArg a f) b := by
+  unfold ArgValid Parser.modArg at *
+  obtain ⟨h1, h2⟩ := h
+  refine ⟨by simp [Parser.modCmd, listModify_length]; exact h1, ?_⟩
+  by_cases hc : a.1 = b.1
+  · rw [← hc] at h1 h2 ⊢
+    rw [Parser.cmd_modCmd_same P a.1 _ h1]
+    simp only [listModify_length]; exact h2
+  · rw [Parser.cmd_modCmd_ne P a.1 b.1 _ hc]; exact h2
+
+/-- **The k-th word lands in the k-th pending field.**  With `n` scalar fields pending (distinct,
+    none of them the rest slice) and at most `n` words that all convert, every word is stored in
+    the field at the same position of the queue, the fields used leave the queue, nothing goes to
+    the remaining arguments and no error is raised — for any number of fields and words. -/
+theorem words_fill_fields_in_order (E : Env) : ∀ (ws : List Bytes) (s : PS) (q : List (Nat × Nat)),
+    s.positional = q → ws.length ≤ q.length → q.Nodup → (∀ a ∈ q, ArgValid s.P a) →
+    (∀ a ∈ q, (s.P.argAt a).isRemaining = false) →
+    (∀ k (hk : k < ws.length), ∃ v, convert E (s.P.argAt (q.getD k default)).tag (ws.getD k []) (s.P.argAt (q.getD k default)).ty
+        (s.P.argAt (q.getD k default)).val = .ok v) →
+    (s.addArgs E ws).2 = none ∧ (s.addArgs E ws).1.retargs = s.retargs ∧
+    (s.addArgs E ws).1.positional = q.drop ws.length ∧
+    ∀ k, k < ws.length →
+      convert E (s.P.argAt (q.getD k default)).tag (ws.getD k []) (s.P.argAt (q.getD k default)).ty
+        (s.P.argAt (q.getD k default)).val = .ok ((s.addArgs E ws).1.P.argAt (q.getD k default)).val := by
+  intro ws
+  induction ws with
+  | nil => intro s q hq _ _ _ _ _; simp [PS.addArgs, hq]
+  | cons w ws ih =>
+    intro s q hq hlen hnd hval hrem hconv
+    cases q with
+    | nil => simp at hlen
+    | cons p ps =>
+      obtain ⟨v, hv⟩ := hconv 0 (by simp)
+      simp only [List.getD_cons_zero] at hv
+      have hremp : (s.P.argAt p).isRemaining = false := hrem p (by simp)
+      rw [word_fills_next_field E s w ws p ps v hq hremp hv]
+      let s' : PS := { s with P := s.P.modArg p fun ad => { ad with val := v }, positional := ps }
+      have hpnot : p ∉ ps := (List.nodup_cons.mp hnd).1
+      have hother : ∀ a ∈ ps, s'.P.argAt a = s.P.argAt a := by
+        intro a ha
+        apply argAt_modArg_ne
+        intro e; subst e; exact hpnot ha
+      have hvalp := hval p (by simp)
+      have ih' := ih s' ps rfl (by simp at hlen; omega) (List.nodup_cons.mp hnd).2
+        (fun a ha => ArgValid_modArg _ _ _ _ (hval a (by simp [ha])))
+        (fun a ha => by rw [hother a ha]; exact hrem a (by simp [ha]))
+        (fun k hk => by
+          have hmem : ps.getD k default ∈ ps := by
+            rw [List.getD_eq_getElem?_getD, List.getElem?_eq_getElem (by simp at hlen; omega)]
+            simp
+          rw [hother _ hmem]
+          have := hconv (k + 1) (by simp; omega)
+          simpa using this)
+      obtain ⟨h1, h2, h3, h4⟩ := ih'
+      refine ⟨h1, h2, by simpa using h3, ?_⟩
+      intro k hk
+      cases k with
+      | zero =>
+        simp only [List.getD_cons_zero]
+        -- the first field keeps the value stored now: later words go to other fields
+        have hkeep : ∀ (ws' : List Bytes) (t : PS), p ∉ t.positional → (t.addArgs E ws').1.P.argAt p = t.P.argAt p := by
+          intro ws'
+          induction ws' with
+          | nil => intro t _; simp [PS.addArgs]
+          | cons x xs ihx =>
+            intro t hpt
+            unfold PS.addArgs
+            cases hq' : t.positional with
+            | nil => simp
+            | cons a as =>
+              simp only
+              have hap : a ≠ p := by intro e; apply hpt; rw [hq', e]; simp
+              split
+              · simp only; exact argAt_modArg_ne _ _ _ _ hap
+              · rw [ihx _ (by
+                  simp only
+                  split
+                  · rw [← hq']; exact hpt
+                  · intro hm; apply hpt; rw [hq']; exact List.mem_cons_of_mem _ hm)]
+                exact argAt_modArg_ne _ _ _ _ hap
+        rw [hkeep ws s' hpnot]
+        have : s'.P.argAt p = { s.P.argAt p with val := v } := argAt_modArg_same _ _ _ hvalp.1 hvalp.2
+        rw [this]; exact hv
+      | succ k =>
+        simp only [List.getD_cons_succ]
+        have hmem : ps.getD k default ∈ ps := by
+          rw [List.getD_eq_getElem?_getD, List.getElem?_eq_getElem (by simp at hk hlen; omega)]
+          simp
+        have := h4 k (by simp at hk; omega)
+        rw [hother _ hmem] at this
+        exact this
 end GoFlags.C10
